@@ -222,16 +222,28 @@ theorem run_setStates (c : Cfg) (fv : Nat → Nat) (qs : List Nat) (t : T)
   | nil => exact ⟨t, by simp [run], hf, hi, rfl⟩
   | cons q rest ih =>
     simp only [List.map_cons, run, step?, hf, hi, Bool.false_eq_true, if_false, Bool.not_true]
-    let t1 : T := { t with st := q, timer := (if effTimeout c q (fv q) > 0 then some (t.now + effTimeout c q (fv q)) else none),
-                          entered := t.now, entryInitial := false, armedWith := effTimeout c q (fv q) }
-    obtain ⟨t', h1, h2, h3, h4⟩ := ih t1 hf hi
+    obtain ⟨t', h1, h2, h3, h4⟩ := ih
+      (t := { st := q, now := t.now, initialSet := true,
+              timer := (if effTimeout c q (fv q) > 0 then some (t.now + effTimeout c q (fv q)) else none),
+              entered := t.now, entryInitial := false, armedWith := effTimeout c q (fv q) }) rfl rfl
     refine ⟨t', h1, h2, h3, ?_⟩
     rw [h4]
     cases rest with
     | nil =>
-      simp only [lastD, t1]
+      simp only [lastD]
       by_cases hp : effTimeout c q (fv q) > 0 <;> simp [hp]
     | cons x xs => simp [lastD]
+
+theorem stOf_func_pos (m : Machine)
+    (hfn : ∀ s ∈ m.states, s.timeoutFunc = true → s.tfMaxMs > 0) (q : Nat)
+    (h : (stOf m q).timeoutFunc = true) : (stOf m q).tfMaxMs > 0 := by
+  unfold stOf at h ⊢
+  cases hq : m.stateOf q with
+  | none => rw [hq] at h; simp at h
+  | some st =>
+    rw [hq] at h
+    simp only [Option.getD_some] at h ⊢
+    exact hfn st (by unfold Machine.stateOf at hq; exact List.mem_of_find?_eq_some hq) h
 
 /-- `arms` (used for the `armed` column) is exactly what the timer model computes, provided a
     TimeoutFunc never returns 0 (checked on the regenerated tables below). -/
@@ -259,16 +271,13 @@ theorem arms_eq_model (m : Machine)
       simp only [lastD] at hlast
       simp only [hlast]
       -- effective timeout of q is positive iff q has a timeout at all
+      have key := stOf_func_pos m hfn q
       unfold effTimeout cfgOf funcValue arms
-      cases hq : m.stateOf q with
-      | none => simp
-      | some st =>
-        simp only [Bool.not_false, Bool.true_and]
-        have hmem : st ∈ m.states := by
-          unfold Machine.stateOf at hq; exact List.mem_of_find?_eq_some hq
-        cases hft : st.timeoutFunc with
-        | true => have := hfn st hmem hft; simp [this]
-        | false => simp
+      simp only [Bool.not_false, Bool.true_and]
+      by_cases hft : (stOf m q).timeoutFunc = true
+      · have := key hft; simp [hft, this]
+      · have hf' : (stOf m q).timeoutFunc = false := by simpa using hft
+        simp [hf']
 
 /-- no TimeoutFunc of the running code returns 0 (sampled maximum, rounded up to seconds) -/
 theorem gen_timeoutFunc_positive :
